@@ -732,3 +732,163 @@ pub fn run_full(tkind: TKind, rounds: usize) {
     w.with_transport(VFull { rounds });
     mmio::set_handler(None);
 }
+
+// ------------------------------------------------------------------------------------------------
+// A long session: more than 65536 requests through one driver instance (the ring indices wrap),
+// blocking writes and reads interleaved with pairs of non-blocking reads completed newest first.
+
+pub fn run_linear(tkind: TKind, requests: u32) -> (u64, Vec<(String, String)>) {
+    struct VL {
+        requests: u32,
+    }
+    impl TransportVisitor for VL {
+        type Out = (u64, Vec<(String, String)>);
+        fn visit<T: Transport + 'static>(self, t: T, w: &DWorld) -> Self::Out {
+            let bd = Rc::new(RefCell::new(BlkDev { id_variant: 0, disk: Disk::default(), decode_errors: vec![], seen: vec![] }));
+            let hold: Rc<RefCell<bool>> = Rc::new(RefCell::new(false));
+            let co: CoRc = {
+                let bd = bd.clone();
+                let hold = hold.clone();
+                CoDevice::new(
+                    w.dev.clone(),
+                    Box::new(move |_q, chain, readable| {
+                        let mut b = bd.borrow_mut();
+                        match decode(chain, readable) {
+                            Err(e) => {
+                                b.decode_errors.push(e);
+                                let wl = chain.writable_len();
+                                Action::Complete(vec![1u8; wl], wl as u32)
+                            }
+                            Ok(r) => {
+                                if *hold.borrow() {
+                                    Action::Hold
+                                } else {
+                                    let (data, len) = b.execute(&r, 0);
+                                    Action::Complete(data, len)
+                                }
+                            }
+                        }
+                    }),
+                )
+            };
+            co.borrow_mut().spin_horizon = 8;
+            cosim::install(&co);
+            let mut out: Vec<(String, String)> = vec![];
+            let mut blk = match VirtIOBlk::<LabHal, T>::new(t) {
+                Ok(b) => b,
+                Err(e) => {
+                    cosim::uninstall();
+                    return (0, vec![("construction".into(), format!("{:?}", e))]);
+                }
+            };
+            let mut expected = Disk::default();
+            let mut n = 0u64;
+            let mut i = 0u32;
+            while i < self.requests {
+                let sector = (i % 7) as u64;
+                match i % 5 {
+                    0 | 2 => {
+                        let buf: Vec<u8> = (0..512).map(|k| (k as u8).wrapping_mul(5).wrapping_add(i as u8)).collect();
+                        if blk.write_blocks(sector as usize, &buf) != Ok(()) {
+                            out.push(("linear-run".into(), format!("request {}: write_blocks({}) failed", i, sector)));
+                            break;
+                        }
+                        expected.sectors.insert(sector, buf);
+                        i += 1;
+                    }
+                    1 | 3 => {
+                        let mut buf = vec![0u8; 512];
+                        let r = blk.read_blocks(sector as usize, &mut buf);
+                        if r != Ok(()) || buf != expected.read(sector) {
+                            out.push(("linear-run".into(), format!("request {}: read_blocks({}) -> {:?} with data {} the disk contents", i, sector, r, if buf == expected.read(sector) { "equal to" } else { "differing from" })));
+                            break;
+                        }
+                        i += 1;
+                    }
+                    _ => {
+                        // Two non-blocking reads in flight, completed newest first.
+                        *hold.borrow_mut() = true;
+                        let mut reqs = [BlkReq::default(), BlkReq::default()];
+                        let mut resps = [BlkResp::default(), BlkResp::default()];
+                        let mut bufs = [vec![0u8; 512], vec![0u8; 512]];
+                        let mut toks = vec![];
+                        let (r0, r1) = reqs.split_at_mut(1);
+                        let (p0, p1) = resps.split_at_mut(1);
+                        let (b0, b1) = bufs.split_at_mut(1);
+                        // SAFETY: the buffers live until both requests are completed below.
+                        toks.push(unsafe { blk.read_blocks_nb(sector as usize, &mut r0[0], &mut b0[0], &mut p0[0]) });
+                        toks.push(unsafe { blk.read_blocks_nb(sector as usize + 1, &mut r1[0], &mut b1[0], &mut p1[0]) });
+                        *hold.borrow_mut() = false;
+                        let (Ok(t0), Ok(t1)) = (toks[0], toks[1]) else {
+                            out.push(("linear-run".into(), format!("request {}: read_blocks_nb -> {:?}", i, toks)));
+                            break;
+                        };
+                        let mut ok = true;
+                        for j in [1usize, 0] {
+                            let held: Vec<crate::ring::Chain> = {
+                                let mut c = co.borrow_mut();
+                                c.service(0);
+                                c.held.get(&0).cloned().unwrap_or_default()
+                            };
+                            let want_head = if j == 1 { t1 } else { t0 };
+                            let Some(pos) = held.iter().position(|c| c.head == want_head) else {
+                                ok = false;
+                                break;
+                            };
+                            let chain = held[pos].clone();
+                            let req = chain.read_all().map_err(|e| e.to_string()).and_then(|r| decode(&chain, &r));
+                            let Ok(req) = req else {
+                                ok = false;
+                                break;
+                            };
+                            let (data, len) = bd.borrow_mut().execute(&req, 0);
+                            co.borrow_mut().complete_held(0, pos, &data, len);
+                            if blk.peek_used() != Some(want_head) {
+                                ok = false;
+                                break;
+                            }
+                            // SAFETY: the same buffers as submitted.
+                            let r = unsafe {
+                                if j == 1 {
+                                    blk.complete_read_blocks(t1, &r1[0], &mut b1[0], &mut p1[0])
+                                } else {
+                                    blk.complete_read_blocks(t0, &r0[0], &mut b0[0], &mut p0[0])
+                                }
+                            };
+                            let got = if j == 1 { &b1[0] } else { &b0[0] };
+                            if r != Ok(()) || *got != expected.read(sector + j as u64) {
+                                ok = false;
+                                break;
+                            }
+                        }
+                        if !ok {
+                            out.push(("linear-run".into(), format!("requests {}..{}: two non-blocking reads completed newest first were not both delivered with their own data", i, i + 1)));
+                            break;
+                        }
+                        i += 2;
+                    }
+                }
+                n += 1;
+                if !bd.borrow().decode_errors.is_empty() {
+                    out.push(("request-malformed".into(), bd.borrow().decode_errors[0].clone()));
+                    break;
+                }
+                if n % 2048 == 0 {
+                    hal::with(|h| h.compact());
+                    co.borrow_mut().served.clear();
+                    bd.borrow_mut().seen.clear();
+                }
+            }
+            drop(blk);
+            cosim::uninstall();
+            (n, out)
+        }
+    }
+    hal::reset();
+    let mut cfg = Kind::Blk.default_config();
+    cfg[0..8].copy_from_slice(&0x1_0000_0008u64.to_le_bytes());
+    let w = DWorld::new(Kind::Blk, tkind, F_VERSION_1 | F_FLUSH | F_INDIRECT | F_EVENT_IDX, cfg);
+    let r = w.with_transport(VL { requests });
+    mmio::set_handler(None);
+    r
+}
